@@ -144,6 +144,13 @@ def structured_outputs():
     for i in range(5):
         classes.append([(M51 << (51 * i)) + k * (1 << ((51 * i + 60) % 250)) for k in range(0, 60)])
         classes.append([(((1 << 255) - 1) ^ (M51 << (51 * i))) - 19 - k - (k << 200 if i == 0 else 0) for k in range(1, 60)])
+    # "value >= p" decided limb by limb: low limb >= 2^51-19 and all other limbs all ones EXCEPT one (the value is below p; a chain that forgets
+    # to look at that limb subtracts p wrongly) - for each of the limbs 1..4, and the same with two limbs not all ones
+    for i in range(1, 5):
+        classes.append([(((1 << 255) - 1) ^ (x << (51 * i))) - j for x in range(1, 40) for j in (0, 7, 18)])
+        classes.append([(((1 << 255) - 1) ^ (M51 << (51 * i))) - j + (x << (51 * i)) for x in range(0, 40) for j in (0, 18)])
+    for i in range(1, 4):
+        classes.append([(((1 << 255) - 1) ^ (x << (51 * i)) ^ (3 << (51 * (i + 1)))) - 5 for x in range(1, 60)])
     class_targets = []
     for cl in classes:
         got = 0
